@@ -27,6 +27,15 @@ fn main() {
             println!("MISMATCH cold_start: {} of {} threads disagree with the single-threaded recomputation", b, threads);
         }
     }
+    if arg(9, 0) == 2 {
+        // cold start on prepared states: nothing has been asked in this process before the threads are released
+        let (b, n) = cold_start_prepared(threads, seed as usize);
+        nodes += n;
+        if b > 0 {
+            bad += 1;
+            println!("MISMATCH cold_start_prepared: {} of {} threads disagree with the single-threaded recomputation (first state {})", b, threads, seed % 4);
+        }
+    }
     for r in 0..rounds {
         let force_rep = arg(8, 0) == 1;
         let root = if r % 3 == 2 || force_rep { build_repetition_root(seed.wrapping_add(r)) } else { build_root(seed.wrapping_add(r), turns, r % 2 == 1) };
